@@ -32,8 +32,19 @@ class AppError(Exception):
         return "application said no"
 
 
+class NoSubErrors(Exception):
+    """An error collection without entries: an exception instance that is falsy."""
+
+    def __len__(self):
+        return 0
+
+    def __str__(self):
+        return "failed without sub-errors"
+
+
 VALUES = {"none": None, "zero": 0, "str": "s", "nested": [1, {"a": None}], "float": {"k": 1.5}}
-ERRORS = {"value": lambda: ValueError("boom"), "app": lambda: AppError(), "key": lambda: KeyError("k")}
+ERRORS = {"value": lambda: ValueError("boom"), "app": lambda: AppError(), "key": lambda: KeyError("k"),
+          "falsy": lambda: NoSubErrors()}
 # chain: list of per-execution outcomes of the victim job
 CHAINS = {
     "ok": ["ok"],
